@@ -1904,6 +1904,11 @@ func (r stack) defaultAssertionHandler(x any) (str string) {
 	} else if Xc, _ := conditionTypeAliasConverter(x); Xc.IsInit() {
 		str = Xc.String()
 
+	} else if isZeroStackage(x) {
+		// a zero-valued Stack, Condition or alias
+		// of either contributes nothing
+		str = ``
+
 	} else if meth := getStringer(x); meth != nil {
 		// whatever it is, it seems to have
 		// a stringer method, at least. If the
